@@ -319,4 +319,74 @@ def fromStr (c : Bech32) (byronB58 : List Char → Bool) (s : List Char) : Res :
       | .byron => .byron
       | .err _ => .err .unknownFormat
 
+/-! ## an executable bech32 (BIP-173) as the `bech32` 0.11 crate is used by pallas: `encode::<Bech32>` and the
+     checksum-agnostic `decode` (bech32 or bech32m constant, no padding validation). Lower-case text only.
+     It instantiates the `Bech32` parameter for the line-protocol driver; the theorems keep the codec abstract. -/
+
+def b32Charset : List Char := "qpzry9x8gf2tvdw0s3jn54khce6mua7l".toList
+
+def b32Gen : List Nat := [0x3b6a57b2, 0x26508e6d, 0x1ea119fa, 0x3d4233dd, 0x2a1462b3]
+
+def b32PolymodStep (chk : Nat) (v : Nat) : Nat :=
+  let b := chk >>> 25
+  let c := ((chk &&& 0x1ffffff) <<< 5) ^^^ v
+  (List.range 5).foldl (fun c i => if (b >>> i) &&& 1 = 1 then c ^^^ b32Gen[i]! else c) c
+
+def b32Polymod (values : List Nat) : Nat := values.foldl b32PolymodStep 1
+
+def b32HrpExpand (hrp : List Char) : List Nat :=
+  hrp.map (fun c => c.toNat >>> 5) ++ [0] ++ hrp.map (fun c => c.toNat &&& 31)
+
+/-- regroup bits, most significant first: `acc`/`bits` = pending bits -/
+def convertBits (from_ to : Nat) (pad : Bool) : Nat → Nat → List Nat → List Nat
+  | acc, bits, [] =>
+    if pad ∧ bits > 0 then [(acc <<< (to - bits)) &&& (2 ^ to - 1)] else []
+  | acc, bits, v :: rest =>
+    let acc := (acc <<< from_) ||| v
+    let bits := bits + from_
+    -- emit while at least `to` bits are pending (at most two groups per input value for 8 <-> 5)
+    if bits ≥ 2 * to then
+      ((acc >>> (bits - to)) &&& (2 ^ to - 1)) :: ((acc >>> (bits - 2 * to)) &&& (2 ^ to - 1)) ::
+        convertBits from_ to pad (acc &&& (2 ^ (bits - 2 * to) - 1)) (bits - 2 * to) rest
+    else if bits ≥ to then
+      ((acc >>> (bits - to)) &&& (2 ^ to - 1)) ::
+        convertBits from_ to pad (acc &&& (2 ^ (bits - to) - 1)) (bits - to) rest
+    else convertBits from_ to pad acc bits rest
+
+def b32Checksum (hrp : List Char) (data : List Nat) : List Nat :=
+  let pm := b32Polymod (b32HrpExpand hrp ++ data ++ [0, 0, 0, 0, 0, 0]) ^^^ 1
+  (List.range 6).map fun i => (pm >>> (5 * (5 - i))) &&& 31
+
+/-- `bech32::encode::<Bech32>(hrp, bytes)` -/
+def b32Encode (hrp : String) (bytes : Bytes) : List Char :=
+  let data := convertBits 8 5 true 0 0 (bytes.map (·.toNat))
+  hrp.toList ++ ['1'] ++ (data ++ b32Checksum hrp.toList data).map fun v => b32Charset[v]!
+
+def splitLast1 : List Char → Option (List Char × List Char)
+  | [] => none
+  | c :: rest =>
+    match splitLast1 rest with
+    | some (h, d) => some (c :: h, d)
+    | none => if c = '1' then some ([], rest) else none
+
+/-- `bech32::decode` on lower-case text -/
+def b32Decode (s : List Char) : Option (String × Bytes) :=
+  match splitLast1 s with
+  | none => none
+  | some (hrp, dataChars) =>
+    if hrp.isEmpty ∨ hrp.any (fun c => c.toNat < 33 ∨ c.toNat > 126 ∨ ('A' ≤ c ∧ c ≤ 'Z')) then none
+    else
+      match dataChars.mapM (fun c => b32Charset.idxOf? c) with
+      | none => none
+      | some values =>
+        if values.length < 6 then none
+        else
+          let pm := b32Polymod (b32HrpExpand hrp ++ values)
+          if pm = 1 ∨ pm = 0x2bc830a3 then
+            let payload := values.take (values.length - 6)
+            some (String.ofList hrp, (convertBits 5 8 false 0 0 payload).map UInt8.ofNat)
+          else none
+
+def realBech32 : Bech32 := { enc := b32Encode, dec := b32Decode }
+
 end PallasVerif.Address
